@@ -119,6 +119,8 @@ FMT_TYPES = {
     'HctlTreeNode': ('&HctlTreeNode', '&({e})', '{a}.formula_str@'),
     'usize': ('usize', '{e}', 'dec_digits({a} as nat)'),
     'char': ('char', '{e}', 'seq![{a}]'),
+    # any primitive integer type (the unit must declare the trait DecFmt): keeps a change of the integer type within reach
+    'int': ('impl DecFmt', '{e}', 'dec_digits_int({a}.dec_view())'),
     'i32': ('i32', '{e}', 'dec_digits_int({a} as int)'),
 }
 
